@@ -94,7 +94,11 @@ class AdaptiveStrategy:
     def __call__(self, ctx: BackoffContext) -> float:
         sleep_s = self.fallback(ctx)
         multiplier = self._multiplier()
-        return sleep_s * multiplier
+        try:
+            return sleep_s * multiplier
+        except OverflowError:
+            # An int too large for a float (e.g. 10**400 s): leave it unscaled, the engine caps it.
+            return sleep_s
 
     def _record(self, success: bool) -> None:
         now = self.clock()
@@ -243,6 +247,14 @@ def token_backoff(base_s: float = 0.25, max_s: float = 20.0) -> StrategyFn:
     return f
 
 
+def _is_finite(value: float) -> bool:
+    try:
+        return math.isfinite(value)
+    except OverflowError:
+        # An int too large for a float is still a finite number of seconds.
+        return True
+
+
 def retry_after_or(
     fallback: StrategyFn,
     *,
@@ -256,8 +268,12 @@ def retry_after_or(
 
     def f(ctx: BackoffContext) -> float:
         retry_after = ctx.classification.retry_after_s
-        if retry_after is not None and math.isfinite(retry_after):
-            sleep_s = max(0.0, float(retry_after))
+        if retry_after is not None and _is_finite(retry_after):
+            try:
+                sleep_s = max(0.0, float(retry_after))
+            except OverflowError:
+                # An int too large for a float is still a finite number of seconds.
+                sleep_s = sys.float_info.max if retry_after > 0 else 0.0
             if jitter:
                 sleep_s += random.uniform(0.0, jitter)
                 if not math.isfinite(sleep_s):
@@ -266,7 +282,7 @@ def retry_after_or(
         else:
             sleep_s = fallback_fn(ctx)
 
-        if not math.isfinite(sleep_s):
+        if not _is_finite(sleep_s):
             sleep_s = 0.0
 
         sleep_s = max(0.0, sleep_s)
